@@ -194,3 +194,88 @@ def cfg_of(fn):
         c = CFG(fn)
         _CFG_CACHE[k] = c
     return c
+
+
+# ------------------------------------------------------------------------------------------- liveness of MIR locals
+def _locals_in(x, out):
+    if isinstance(x, dict):
+        if "local" in x and isinstance(x["local"], int):
+            out.add(x["local"])
+        for v in x.values():
+            _locals_in(v, out)
+    elif isinstance(x, list):
+        for v in x:
+            _locals_in(v, out)
+
+
+_LIVE_CACHE = {}
+
+
+def live_in(fn):
+    """block -> set of locals that may be read before being overwritten from the entry of that block (conservative: any mention
+    of a local other than as the whole destination of an assignment / call counts as a use)"""
+    key = id(fn)
+    if key in _LIVE_CACHE:
+        return _LIVE_CACHE[key]
+    cfg = cfg_of(fn)
+    n = len(fn["blocks"])
+    use = [set() for _ in range(n)]
+    dfn = [set() for _ in range(n)]
+    for i, b in enumerate(fn["blocks"]):
+        u, d = use[i], dfn[i]
+        for s in b["stmts"]:
+            if "assign" in s:
+                pl, rv = s["assign"]
+                r = set()
+                _locals_in(rv, r)
+                if pl["proj"]:
+                    _locals_in(pl, r)
+                u |= (r - d)
+                if not pl["proj"]:
+                    d.add(pl["local"])
+            else:
+                r = set()
+                _locals_in(s, r)
+                u |= (r - d)
+        t = b["term"]
+        if t:
+            r = set()
+            if "call" in t:
+                c = t["call"]
+                _locals_in(c.get("args"), r)
+                _locals_in(c.get("callee"), r)
+                if c["dest"]["proj"]:
+                    _locals_in(c["dest"], r)
+                u |= (r - d)
+                if not c["dest"]["proj"]:
+                    d.add(c["dest"]["local"])
+            else:
+                _locals_in(t, r)
+                if "return" in t:
+                    r.add(0)
+                u |= (r - d)
+    # a local whose address is taken anywhere can be read through the reference without being mentioned: always live
+    borrowed = set()
+    for b in fn["blocks"]:
+        for s in b["stmts"]:
+            if "assign" in s and isinstance(s["assign"][1], dict):
+                rv = s["assign"][1]
+                for k in ("ref", "addr_of"):
+                    if k in rv:
+                        borrowed.add(rv[k]["place"]["local"])
+    for i in range(n):
+        use[i] |= borrowed
+    live = [set() for _ in range(n)]
+    changed = True
+    while changed:
+        changed = False
+        for i in range(n - 1, -1, -1):
+            out = set()
+            for sc in cfg.succ[i]:
+                out |= live[sc]
+            new = use[i] | (out - dfn[i])
+            if new != live[i]:
+                live[i] = new
+                changed = True
+    _LIVE_CACHE[key] = live
+    return live
